@@ -2618,9 +2618,12 @@ impl<'a, R: FileManager> FrontendCtx<'a, R> {
         &mut self,
         q: &TsEntityName,
         file: BffFileName,
+        visibility: Visibility,
+        // the file the name is written in: after `import("…").` it is not the file the name is looked up in
+        written_in: &BffFileName,
     ) -> Res<AddressedQualifiedValue> {
         let anchor = Anchor {
-            f: file.clone(),
+            f: written_in.clone(),
             s: q.span(),
         };
         match q {
@@ -2628,6 +2631,8 @@ impl<'a, R: FileManager> FrontendCtx<'a, R> {
                 let left_part = self.get_addressed_qualified_value_from_entity_name(
                     &ts_qualified_name.left,
                     file.clone(),
+                    visibility,
+                    written_in,
                 )?;
                 if let AddressedQualifiedValue::StarOfFile(other_file) = left_part {
                     let new_addr = ModuleItemAddress {
@@ -2644,12 +2649,9 @@ impl<'a, R: FileManager> FrontendCtx<'a, R> {
                 })
             }
             TsEntityName::Ident(ident) => {
-                let addr = ModuleItemAddress::from_ident(
-                    ident,
-                    file.clone(),
-                    // TODO: is visibility correct here?
-                    Visibility::Local,
-                );
+                // the leftmost name of `a.b.c` is a local of the file, except after `import("…").`, where it is an
+                // export of the imported file
+                let addr = ModuleItemAddress::from_ident(ident, file.clone(), visibility);
                 let value_addressed = self.get_addressed_qualified_value(&addr, &anchor)?;
                 Ok(value_addressed)
             }
@@ -2710,11 +2712,14 @@ impl<'a, R: FileManager> FrontendCtx<'a, R> {
         &mut self,
         ts_qualified_name: &TsQualifiedName,
         file: BffFileName,
+        visibility: Visibility,
         anchor: &Anchor,
     ) -> Res<Runtype> {
         let left_value = self.get_addressed_qualified_value_from_entity_name(
             &ts_qualified_name.left,
             file.clone(),
+            visibility,
+            &anchor.f,
         )?;
 
         self.member_access_qualified_value(&left_value, &ts_qualified_name.right.sym, anchor)
@@ -2733,7 +2738,7 @@ impl<'a, R: FileManager> FrontendCtx<'a, R> {
                 self.extract_addressed_value_from_address(&addr, anchor)
             }
             TsEntityName::TsQualifiedName(ts_qualified_name) => {
-                self.extract_value_from_ts_qualified_name(ts_qualified_name, file, anchor)
+                self.extract_value_from_ts_qualified_name(ts_qualified_name, file, visibility, anchor)
             }
         }
     }
